@@ -236,6 +236,10 @@ impl Board {
         self.position_info.uncount_current_position(self.turn)
     }
 
+    pub fn current_position_count(&self) -> u8 {
+        self.position_info.current_position_count(self.turn)
+    }
+
     pub fn max_seen_position_count(&self) -> u8 {
         self.position_info.max_seen_position_count()
     }
